@@ -9,6 +9,7 @@
 //   during the init. Lifetime is ensured by not dropping until the Drop of the whole slot and that
 //   is checked by taking `&mut self`.
 
+use std::ptr;
 use std::sync::atomic::{AtomicPtr, Ordering};
 
 use libc::{c_int, siginfo_t};
@@ -85,11 +86,17 @@ unsafe impl Exfiltrator for WithRawSiginfo {
     }
 
     fn init(&self, slot: &Self::Storage, _: c_int) {
-        let new = Box::default();
-        let old = slot.0.swap(Box::into_raw(new), Ordering::Release);
-        // We leak the pointer on purpose here. This is invalid state anyway and must not happen,
-        // but if it still does, we can't drop that while some other thread might still be having
-        // the raw pointer.
-        assert!(old.is_null(), "Init called multiple times");
+        let new = Box::into_raw(Box::default());
+        // The slot may already be initialized: a previous attempt to register the same signal
+        // might have failed after the init (and is retried now). In such case we keep the old
+        // channel ‒ some thread might still hold the raw pointer to it ‒ and throw away the new one.
+        if slot
+            .0
+            .compare_exchange(ptr::null_mut(), new, Ordering::Release, Ordering::Relaxed)
+            .is_err()
+        {
+            // Nobody else has seen this pointer yet.
+            drop(unsafe { Box::from_raw(new) });
+        }
     }
 }
